@@ -92,6 +92,8 @@ def main():
                 self.tprop, self.HH, RTensor=self.RT, PDeph=self.pdG)
             self.propL = ReducedDensityMatrixPropagator(
                 self.tprop, self.HH, RTensor=self.RT, PDeph=self.pdL)
+            # Hamiltonian only (another code path of the propagator)
+            self.propH = ReducedDensityMatrixPropagator(self.tprop, self.HH)
             v = numpy.array([0.0, 0.8, 0.6j, 0.0])[:n]
             self.rho0 = qr.ReducedDensityMatrix(data=numpy.outer(v, v.conj()))
             self.psi0 = qr.StateVector(data=v.copy())
@@ -155,12 +157,12 @@ def main():
 
         def call(self, name, arg):
             if name == "set_refinement":
-                for p in (self.prop, self.propG, self.propL):
+                for p in (self.prop, self.propG, self.propL, self.propH):
                     p.setDtRefinement(arg)
                 return None
             if name == "rdm_propagate":
                 out = []
-                for p in (self.prop, self.propG, self.propL):
+                for p in (self.prop, self.propG, self.propL, self.propH):
                     r = quiet(p.propagate, self.rho0, Nref=arg)
                     out.append(numpy.array(r.data))
                 return numpy.array(out)
